@@ -94,8 +94,8 @@ impl BlockchainSyncState {
                 };
 
                 let already_exists = blocks_to_fetch_from_peer.iter().any(|b| {
-                    let exists =
-                        b.block_hash == block_data.block_hash && b.block_id == block_data.block_id;
+                    // (a block is its hash: the id next to it is whatever the announcing peer wrote there)
+                    let exists = b.block_hash == block_data.block_hash;
                     if exists {
                         trace!(
                             "block : {:?}-{:?} already in the queue to be fetched with status : {:?} / retry_count : {:?}",
